@@ -17,7 +17,7 @@ PRED_PROP = {
     "C13.LockCount": "C13", "C13.DirExactWhenQuiet": "C13", "C13.NoLeak": "C13",
     "C11.GraphWellFormed": "C11", "C11.ReferencedMirrors": "C11", "C11.RejectIsNoop": "C11", "C11.Applied": "C11",
     "C09.FlagsMatchJobs": "C09", "C09.Stuck": "C09",
-    "C16.ConvFresh": "C16", "C16.ConvEventually": "C16", "C16.DetachStops": "C16",
+    "C16.ConvFresh": "C16", "C16.ConvFreshAtRest": "C16", "C16.ConvEventually": "C16", "C16.DetachStops": "C16",
 }
 
 
@@ -89,6 +89,12 @@ def to_schedule(sid, hist, convs=(), settle=True):
         if e["a"] == "SetConverters":
             st["name"] = e["name"]
             st["convs"] = list(e.get("convs", []))
+        if e["a"] == "ConvReset":
+            st["convs"] = list(e["convs"])
+        if e["a"] == "ViewConvert":
+            st["convs"] = list(e["convs"])
+            st["v"] = e["v"]
+            st["k"] = e["k"]
         steps.append(st)
     return {"id": sid, "steps": steps, "settle": settle, "convs": list(convs)}
 
@@ -194,7 +200,9 @@ GEN = {
     "C10": ({"TagNames": '{"tag/a"}', "ConvNames": "{}", "MaxCalls": 7, "MaxViews": 3, "Menu": '"files"', "Invalid": "FALSE"}, 40),
     "C11": ({"TagNames": '{"tag/a", "tag/b", "mark/m"}', "ConvNames": "{}", "MaxCalls": 12, "MaxViews": 0, "Menu": '"tags"', "Invalid": "TRUE"}, 34),
     "C13": ({"TagNames": '{"tag/a"}', "ConvNames": "{}", "MaxCalls": 8, "MaxViews": 3, "Menu": '"files"', "Invalid": "FALSE"}, 40),
+    "C16": ({"TagNames": '{"tag/a", "tag/b", "mark/m"}', "ConvNames": '{"cv"}', "MaxCalls": 9, "MaxViews": 1, "Menu": '"conv"', "Invalid": "FALSE"}, 48),
 }
+CONVS = {"C16": ["cv"]}
 
 MC = {
     # pid: list of (cfg name, constants, invariants, timeout)
@@ -208,6 +216,8 @@ MC = {
              ["GraphWellFormed"])],
     "C13": [("files", {"TagNames": '{"tag/a"}', "ConvNames": "{}", "MaxCalls": 3, "MaxViews": 2, "Menu": '"files"', "Invalid": "FALSE"},
              ["NoUseAfterFree", "Balanced", "DirExactWhenQuiet", "NoLeak"])],
+    "C16": [("conv", {"TagNames": '{"tag/a"}', "ConvNames": '{"cv"}', "MaxCalls": 3, "MaxViews": 0, "Menu": '"conv"', "Invalid": "FALSE"},
+             ["ConvFresh", "ConvEventually", "DetachStops", "NeverStuck", "FlagsMatchJobs"])],
 }
 
 
@@ -250,10 +260,11 @@ def run(ctx):
         ns = max(2, nseeds // len(cfgs)) if ci else nseeds - (len(cfgs) - 1) * max(2, nseeds // len(cfgs)) if len(cfgs) > 1 else nseeds
         if nseeds:
             hists += generate(ctx, c, maxlen, per, maxlen + 5, [ctx.seed * 1000 + 100 * ci + i for i in range(ns)])
-    scheds = [to_schedule("g%d" % i, h) for i, h in enumerate(hists)]
+    convs = CONVS.get(pid, [])
+    scheds = [to_schedule("g%d" % i, h, convs=convs) for i, h in enumerate(hists)]
     scheds = load_regress([pid]) + scheds
     rows, crashes, outs = run_schedules(ctx, scheds, tag=pid)
-    return evaluate(ctx, pid, scheds, rows, crashes, states, trans, mc_notes)
+    return evaluate(ctx, pid, scheds, rows, crashes, states, trans, mc_notes, convs=convs)
 
 
 def evaluate(ctx, pid, scheds, rows, crashes, states, trans, mc_notes, convs=()):
@@ -277,6 +288,14 @@ def evaluate(ctx, pid, scheds, rows, crashes, states, trans, mc_notes, convs=())
     if fatal:
         raise Infra("harness could not drive the service: %s" % json.dumps(fatal[0])[:2000])
     fails, nonconfs, consumed = validate(ctx, rows, convs)
+    # staleness at rest is attributed to the step at which the stale entry first appeared
+    first_strict = {}
+    for f in fails:
+        if f["what"] == "C16.ConvFresh" and (f["sid"] not in first_strict or f["n"] < first_strict[f["sid"]]["n"]):
+            first_strict[f["sid"]] = f
+    for f in fails:
+        if f["what"] == "C16.ConvFreshAtRest":
+            f["info"] = "cause=" + first_strict.get(f["sid"], f)["a"]
     mine = [f for f in first_fails(fails) if PRED_PROP.get(f["what"]) == pid]
     others = sorted({f["what"] for f in fails if PRED_PROP.get(f["what"]) != pid})
     infra_fail = [f for f in fails if f["what"] in ("obs-error", "dir-listing-differs")]
